@@ -35,6 +35,7 @@ def run(ctx):
     r014(ctx)
     r015(ctx)
     r016(ctx)
+    r017(ctx)
     # "whether the simplifier is applied to one expression or to all expressions of a transition system": the system-level driver
     # (system/transform.rs, anchored by this property) must hand every expression of the system to the engine and re-point every field
     # to its own result - the clauses of C11, re-evaluated here under their own rule ids
@@ -185,6 +186,78 @@ def r016(ctx):
                              path, callee(x).split("::")[-1], sorted(vs) if vs else "variants that could not be determined"),
                          sample={"rule": path.split("::")[-1], "helper": callee(x).split("::")[-1], "variants": sorted(vs or [])})
     ctx.floor("R01.6", "calls of order-forgetting operand helpers", n_calls, 5)
+
+
+UNIT_TABLE = {("and", "is_zero"): "lit", ("and", "is_all_ones"): "other", ("or", "is_zero"): "other", ("or", "is_all_ones"): "lit",
+              ("xor", "is_zero"): "other", ("xor", "is_all_ones"): "not other", ("add", "is_zero"): "other", ("mul", "is_zero"): "lit", ("mul", "is_one"): "other"}
+LIT_PREDS = ("is_zero", "is_all_ones", "is_one", "is_true", "is_false", "is_tru", "is_fals", "is_negative")
+
+
+def r017(ctx):
+    """units and annihilators: in the `one operand is a literal` arm of the rules for and / or / xor / add / mul, a branch selected by exactly one
+    predicate of the literal and answering with one of the two operands (or the negated other operand) must be an algebraic law of that operator
+    for every width"""
+    ctx.rule("R01.7", "in the literal-operand arm of simplify_bv_{and,or,xor,add,mul}: a branch taken under one predicate P of the literal that returns the literal, the other operand or its negation is the law (op, P) -> result of the table (0 / all-ones for and, or, xor; 0 for add; 0 and 1 for mul)")
+    c = ctx.facts.lib("patronus")
+    n = 0
+    for op in ("and", "or", "xor", "add", "mul"):
+        fl = c.fns.get("patronus::expr::simplify::simplify_bv_" + op)
+        if not fl:
+            continue
+        f = fl[0]
+        ix = Index(f["body"])
+        for m in ix.nodes:
+            if m.get("k") != "match":
+                continue
+            for arm in m["arms"]:
+                pt = arm["pat"]
+                while pt.get("k") in ("pref", "pderef"):
+                    pt = pt["pat"]
+                if not (pt.get("k") == "pvariant" and str(pt.get("path", "")).endswith("Lits::One") and len(pt.get("subs", [])) == 2):
+                    continue
+                first = pt["subs"][0]
+                while first.get("k") in ("pref", "pderef"):
+                    first = first["pat"]
+                if first.get("k") != "ptuple" or len(first["subs"]) != 2:
+                    continue
+                lit_b, le_b, ot_b = binding_of(first["subs"][0]), binding_of(first["subs"][1]), binding_of(pt["subs"][1])
+                if not lit_b or not ot_b:
+                    continue
+
+                def lit_pred(c_):
+                    """name of the predicate when c_ is `<the literal's value>.P()`"""
+                    c_ = resolve(c_)
+                    if c_.get("k") == "mcall" and c_["name"] in LIT_PREDS and not c_["args"]:
+                        b_, ms_ = chain(resolve(c_["recv"]))
+                        if peel(b_).get("k") == "local" and (is_local(b_, lit_b[1])) and [x_[0] for x_ in ms_] in ([], ["get"]):
+                            return c_["name"]
+                    return None
+                for conds, leaf in norm_.result_table(ix, arm["body"]):
+                    leaf = peel(leaf)
+                    preds = [(lit_pred(c_), pol) for c_, pol in conds if c_.get("k") not in ("armpat", "letexpr")]
+                    if len(preds) != len(conds) or any(p_ is None for p_, _ in preds):
+                        continue          # the branch depends on something else as well: not a plain unit / annihilator law
+                    pos = [p_ for p_, pol in preds if pol]
+                    if len(pos) != 1:
+                        continue
+                    if leaf.get("k") == "def" and (leaf.get("path") or "").endswith("Option::None"):
+                        continue
+                    if le_b and is_local(leaf, le_b[1]):
+                        cls = "lit"
+                    elif is_local(leaf, ot_b[1]):
+                        cls = "other"
+                    elif leaf.get("k") == "mcall" and (callee(leaf) or "").endswith("Context::not") and len(leaf["args"]) == 1 and is_local(leaf["args"][0], ot_b[1]):
+                        cls = "not other"
+                    else:
+                        continue
+                    n += 1
+                    want = UNIT_TABLE.get((op, pos[0]))
+                    ctx.inst("R01.7", "simplify_bv_%s:%s" % (op, pos[0]), want == cls, leaf.get("sp") or arm.get("sp"),
+                             "simplify_bv_%s rewrites `x %s lit` to %s when the literal %s: %s" % (
+                                 op, op, {"lit": "the literal", "other": "x", "not other": "not(x)"}[cls], pos[0],
+                                 "the law for this operator is -> %s" % want if want else "that is not a law of `%s` for every width (for width > 1 the literal 1 is neither 0 nor all-ones)" % op),
+                             sample={"op": op, "when": pos[0], "result": cls})
+    ctx.floor("R01.7", "unit / annihilator branches", n, 9)
 
 
 def r014(ctx):
